@@ -6,7 +6,11 @@ package c16
 import (
 	"context"
 	"encoding/json"
+	"errors"
 	"fmt"
+	"os"
+	"path/filepath"
+	"strconv"
 	"strings"
 	"sync"
 	"testing"
@@ -15,6 +19,7 @@ import (
 	"github.com/failsafe-go/failsafe-go"
 	"github.com/failsafe-go/failsafe-go/bulkhead"
 	"github.com/failsafe-go/failsafe-go/circuitbreaker"
+	"github.com/failsafe-go/failsafe-go/hedgepolicy"
 	"github.com/failsafe-go/failsafe-go/ratelimiter"
 	"github.com/failsafe-go/failsafe-go/retrypolicy"
 
@@ -75,6 +80,40 @@ func TestRegress(t *testing.T) {
 	st := harness.NewStats("TestRegress")
 	defer st.Flush()
 	cfg.Regress(t, st, "../../regress/c16")
+	// saved schedules of TestHedgedRetryEvents (a race between branches: repeated)
+	files, _ := filepath.Glob("../../regress/c16-hedged/*.json")
+	if p := os.Getenv("VERIF_REPLAY"); p != "" {
+		files = []string{p}
+	}
+	reps := 300
+	if r, err := strconv.Atoi(os.Getenv("VERIF_REPLAY_REPS")); err == nil && r > 1 {
+		reps = r
+	}
+	for _, f := range files {
+		b, err := os.ReadFile(f)
+		if err != nil {
+			continue
+		}
+		var sc hedgedScen
+		_ = json.Unmarshal(b, &sc)
+		if sc.MaxHedges == 0 {
+			var vr struct {
+				Test     string     `json:"test"`
+				Scenario hedgedScen `json:"scenario"`
+			}
+			_ = json.Unmarshal(b, &vr)
+			if vr.Test != "TestHedgedRetryEvents" {
+				continue
+			}
+			sc = vr.Scenario
+		}
+		if sc.MaxHedges == 0 {
+			continue
+		}
+		for i := 0; i < reps; i++ {
+			runHedgedRetry(t, st, sc)
+		}
+	}
 }
 
 // TestEventsConcurrent: several executions run at the same time through one shared executor whose listeners they share;
@@ -340,4 +379,211 @@ func TestBreakerEventPathConcurrent(t *testing.T) {
 			st.Sample(key, func() any { return map[string]any{"scenario": sc, "transitions": generic} })
 		}
 	})
+}
+
+// TestHedgedRetryEvents: Hedge(Retry(fn)) with a hedge policy that only accepts successes, so several attempts of one
+// execution are inside the retry policy at the same time and share its executor. Every invocation of the function parks
+// on a gate; the harness lets the parked invocations return in a generated order, either one at a time (waiting for what
+// each return leads to) or all at once. Whatever the order: OnRetriesExceeded fires at most once for the execution (exactly
+// once when the caller receives ExceededError), every invocation is either the first attempt of a hedge branch or a retry
+// announced by OnRetry, a retry is started only after it was scheduled, and the executor reports completion once.
+type hedgedScen struct {
+	MaxHedges  int   `json:"max_hedges"`
+	MaxRetries int   `json:"max_retries"`
+	SucceedAt  int   `json:"succeed_at"` // the n-th invocation to return succeeds (0: none does)
+	Burst      bool  `json:"burst"`      // parked invocations are released together
+	Order      []int `json:"order"`      // which parked invocation returns next (index modulo the number parked)
+	ReturnLast bool  `json:"return_last"`
+	Async      bool  `json:"async"`
+}
+
+func TestHedgedRetryEvents(t *testing.T) {
+	st := harness.NewStats("TestHedgedRetryEvents")
+	defer st.Flush()
+	rapid.Check(t, func(t *rapid.T) {
+		sc := hedgedScen{MaxHedges: rapid.IntRange(1, 3).Draw(t, "maxHedges"), MaxRetries: rapid.IntRange(0, 3).Draw(t, "maxRetries"),
+			SucceedAt: rapid.SampledFrom([]int{0, 0, 0, 2, 4, 6}).Draw(t, "succeedAt"), Burst: rapid.Bool().Draw(t, "burst"),
+			ReturnLast: rapid.Bool().Draw(t, "returnLast"), Async: rapid.Bool().Draw(t, "async")}
+		for i := 0; i < 12; i++ {
+			sc.Order = append(sc.Order, rapid.IntRange(0, 3).Draw(t, "order"))
+		}
+		runHedgedRetry(t, st, sc)
+	})
+}
+
+func runHedgedRetry(t harness.TB, st *harness.Stats, sc hedgedScen) {
+	const test = "TestHedgedRetryEvents"
+	{
+		var mu sync.Mutex
+		counts := map[string]int{}
+		hit := func(name string) {
+			mu.Lock()
+			counts[name]++
+			mu.Unlock()
+		}
+		type parkedInv struct{ gate chan struct{} }
+		var parked []*parkedInv
+		entered, returned := 0, 0
+		finished := false
+		fn := func(exec failsafe.Execution[int]) (int, error) {
+			p := &parkedInv{gate: make(chan struct{})}
+			mu.Lock()
+			entered++
+			parked = append(parked, p)
+			mu.Unlock()
+			select {
+			case <-p.gate:
+			case <-exec.Canceled():
+				mu.Lock()
+				for i, q := range parked {
+					if q == p {
+						parked = append(parked[:i], parked[i+1:]...)
+						break
+					}
+				}
+				counts["abandoned"]++
+				mu.Unlock()
+				return 0, compose.EA
+			}
+			mu.Lock()
+			returned++
+			n := returned
+			mu.Unlock()
+			if sc.SucceedAt != 0 && n == sc.SucceedAt {
+				return 7, nil
+			}
+			return 0, compose.EA
+		}
+		rb := retrypolicy.Builder[int]().WithMaxRetries(sc.MaxRetries).
+			OnRetryScheduled(func(failsafe.ExecutionScheduledEvent[int]) { hit("OnRetryScheduled") }).
+			OnRetry(func(failsafe.ExecutionEvent[int]) { hit("OnRetry") }).
+			OnRetriesExceeded(func(failsafe.ExecutionEvent[int]) { hit("OnRetriesExceeded") }).
+			OnAbort(func(failsafe.ExecutionEvent[int]) { hit("OnAbort") })
+		if sc.ReturnLast {
+			rb.ReturnLastFailure()
+		}
+		hp := hedgepolicy.BuilderWithDelay[int](time.Microsecond).WithMaxHedges(sc.MaxHedges).
+			CancelIf(func(_ int, err error) bool { return err == nil }).
+			OnHedge(func(failsafe.ExecutionEvent[int]) { hit("OnHedge") }).Build()
+		ex := failsafe.NewExecutor[int](hp, rb.Build()).
+			OnDone(func(failsafe.ExecutionDoneEvent[int]) { hit("OnDone") }).
+			OnSuccess(func(failsafe.ExecutionDoneEvent[int]) { hit("OnSuccess") }).
+			OnFailure(func(failsafe.ExecutionDoneEvent[int]) { hit("OnFailure") })
+		var v int
+		var err error
+		doneCh := make(chan struct{})
+		go func() {
+			defer close(doneCh)
+			if sc.Async {
+				v, err = ex.GetWithExecutionAsync(fn).Get()
+			} else {
+				v, err = ex.GetWithExecution(fn)
+			}
+			mu.Lock()
+			finished = true
+			mu.Unlock()
+		}()
+		isDone := func() bool {
+			select {
+			case <-doneCh:
+				return true
+			default:
+				return false
+			}
+		}
+		// all hedges start (the delay is a microsecond) and park
+		w := harness.Wait(20 * time.Second)
+		for !w.Expired() {
+			mu.Lock()
+			n := entered
+			mu.Unlock()
+			if n >= sc.MaxHedges+1 || isDone() {
+				break
+			}
+			time.Sleep(20 * time.Microsecond)
+		}
+		maxConc := 0
+		for step := 0; !isDone(); step++ {
+			mu.Lock()
+			n := len(parked)
+			if n > maxConc {
+				maxConc = n
+			}
+			var rel []*parkedInv
+			switch {
+			case n == 0:
+			case sc.Burst:
+				rel, parked = parked, nil
+			default:
+				i := sc.Order[step%len(sc.Order)] % n
+				rel = []*parkedInv{parked[i]}
+				parked = append(parked[:i], parked[i+1:]...)
+			}
+			before := entered
+			mu.Unlock()
+			for _, p := range rel {
+				close(p.gate)
+			}
+			// let the consequences happen: a retry re-enters the function, or the execution ends; an attempt that merely
+			// hands its result to the hedge policy leaves nothing to wait for, hence the settle time
+			settle := harness.Wait(400 * time.Microsecond)
+			for !settle.Expired() && !isDone() {
+				mu.Lock()
+				moved := entered > before
+				mu.Unlock()
+				if moved && !sc.Burst {
+					break
+				}
+				time.Sleep(10 * time.Microsecond)
+			}
+			if step > 400 {
+				harness.Violation(t, cfg.Prop, test, "hedged-retry-hangs", sc, "%+v: the execution had not finished after 400 releases; events %v", sc, counts)
+			}
+		}
+		select {
+		case <-doneCh:
+		case <-harness.After(30 * time.Second):
+			harness.Violation(t, cfg.Prop, test, "hedged-retry-hangs", sc, "%+v: the call did not return", sc)
+		}
+		// abandoned attempts may still be running through their listeners
+		time.Sleep(300 * time.Microsecond)
+		mu.Lock()
+		c := map[string]int{}
+		for k, n := range counts {
+			c[k] = n
+		}
+		ent := entered
+		mu.Unlock()
+		_ = finished
+		bad := func(sig, f string, a ...any) {
+			harness.Violation(t, cfg.Prop, test, sig, sc, "%+v (result %d,%v; %d invocations): %s; events %v", sc, v, err, ent, fmt.Sprintf(f, a...), c)
+		}
+		// (a result that reaches the retry policy after another branch has exhausted it passes through unclassified, as in
+		// nested retries, so a returned error does not imply OnFailure here; a nil error does imply OnSuccess)
+		if c["OnDone"] != 1 || c["OnSuccess"]+c["OnFailure"] != 1 || (err == nil && c["OnSuccess"] != 1) {
+			bad("hedged-completion-events", "completion events do not match the result")
+		}
+		if c["OnRetriesExceeded"] > 1 {
+			bad("retries-exceeded-twice", "OnRetriesExceeded fired %d times for one execution", c["OnRetriesExceeded"])
+		}
+		var exc retrypolicy.ExceededError
+		if errors.As(err, &exc) && c["OnRetriesExceeded"] != 1 {
+			bad("exceeded-error-without-event", "the caller received ExceededError but OnRetriesExceeded fired %d times", c["OnRetriesExceeded"])
+		}
+		if c["OnAbort"] != 0 {
+			bad("abort-without-abort-condition", "OnAbort fired %d times with no abort condition configured", c["OnAbort"])
+		}
+		if c["OnRetry"] > c["OnRetryScheduled"] {
+			bad("retry-without-schedule", "OnRetry %d > OnRetryScheduled %d", c["OnRetry"], c["OnRetryScheduled"])
+		}
+		if c["OnHedge"] > sc.MaxHedges {
+			bad("too-many-hedges", "OnHedge fired %d times with max hedges %d", c["OnHedge"], sc.MaxHedges)
+		}
+		if ent != 1+c["OnHedge"]+c["OnRetry"] {
+			bad("invocations-vs-events", "%d invocations, but 1 + %d hedges + %d retries were announced", ent, c["OnHedge"], c["OnRetry"])
+		}
+		b, _ := json.Marshal(sc)
+		st.Case(string(b), maxConc >= 2 && c["OnRetryScheduled"]+c["OnRetriesExceeded"] > 0, fmt.Sprintf("burst=%v", sc.Burst), fmt.Sprintf("exceeded=%d", c["OnRetriesExceeded"]))
+		st.Sample(string(b), func() any { return sc })
+	}
 }
